@@ -31,6 +31,7 @@ import contextlib
 import copy
 import dataclasses
 import datetime
+import itertools
 import operator
 import typing as t
 
@@ -428,7 +429,7 @@ def _make_fields_iterator(
         ]
     # If that didn't work, look for `__slots__`:
     #   every class of the hierarchy declares its own, a lone string is one name.
-    slotted = False
+    slotted = from_slots = False
     if not public_attribs:
         declared = [
             vars(base)["__slots__"]
@@ -438,6 +439,7 @@ def _make_fields_iterator(
         slotted = bool(declared) and not tp.__dictoffset__
         names = [n for d in declared for n in ((d,) if isinstance(d, str) else d)]
         public_attribs = [s for s in dict.fromkeys(names) if not s.startswith("_")]
+        from_slots = True
     # If we located all public attributes, create a factory function for iterating over
     #   these fields and fetching the value from an instance.
     #   (Instances without a `__dict__` have nothing else to offer, even if that is nothing.)
@@ -445,6 +447,21 @@ def _make_fields_iterator(
 
         def _iterfields(val: t.Any) -> t.Iterator[tuple[str, t.Any]]:
             return ((a, getattr(val, a)) for a in public_attribs)
+
+        # (Where only part of the hierarchy declares `__slots__`, the instance `__dict__` holds the rest.)
+        if from_slots and tp.__dictoffset__:
+
+            def _iterboth(val: t.Any) -> t.Iterator[tuple[str, t.Any]]:
+                return itertools.chain(
+                    _iterfields(val),
+                    (
+                        (k, v)
+                        for k, v in vars(val).items()
+                        if not k.startswith("_") and k not in public_attribs
+                    ),
+                )
+
+            return _iterboth
 
         return _iterfields
 
